@@ -479,6 +479,16 @@ def r9(R9, cfg, F):
                 some = b.variant_edge(sw, 1) if sw is not None else None
                 found = [some] if some is not None else None
                 if not found:
+                    # (the result may pass through the return slot of a helper written in place before it is matched)
+                    found = []
+                    for bb_, t_ in b.terms():
+                        tst = common.switch_test(b, bb_) if t_['k'] == 'switch' and not b.blocks[bb_]['cleanup'] else None
+                        if tst and tst[0] == 'discr' and common.strip_refs(common.deep_path(b, tst[1])) == ['call@bb%d' % c.bb]:
+                            e_ = b.variant_edge(bb_, 1)
+                            if e_ is not None:
+                                found.append(e_)
+                    found = found or None
+                if not found:
                     ok, why = False, 'shape: the result of `%s` is not matched' % c.callee.name
                     break
             if b.reachable(found, removed_blocks=list(resets)) & rets:
